@@ -623,8 +623,10 @@ impl Sim {
         let mut guard = 0;
         loop {
             guard += 1;
-            if guard > 200 {
-                return Some(("livelock".into(), "fair continuation did not settle within 200 steps".into()));
+            // one delivery per round at most: the horizon grows with what there is to deliver
+            let horizon = 200 + 4 * self.cfg.items.iter().map(|&n| n as usize + 2).sum::<usize>();
+            if guard > horizon {
+                return Some(("livelock".into(), format!("fair continuation did not settle within {} steps", horizon)));
             }
             let m = self.model();
             let mut progressed = false;
@@ -1166,6 +1168,85 @@ pub fn replay_print(cfg: &Config, hist: &[Ev]) -> Option<(String, String)> {
         }
     }
     sim.fair_drain()
+}
+
+/// Scale family (detection beyond the exhaustive configurations, which have 2-3 streams): many idle streams in the
+/// queue at once, then one or all of them get something. No search: a fixed menu of histories per stream count, each
+/// judged by the same per-state invariants and the fair-drain liveness oracle as the BFS states.
+pub fn scale_family(ck: &mut zvcore::evidence::Check, thorough: bool, relevant: fn(&str) -> bool) {
+    install_thread_hooks();
+    let ks: &[usize] = if thorough { &[4, 8, 16, 31, 32, 33, 34, 40, 64, 65, 100, 128, 129, 200, 250] } else { &[8, 33, 40, 100, 129] };
+    let (mut hists, mut events) = (0u64, 0u64);
+    for &k in ks {
+        let cfg = Config {
+            name: format!("scale-k{}", k),
+            k,
+            items: vec![2; k],
+            preload: vec![0; k],
+            allow_remove: true,
+            allow_close: true,
+            windows: 0,
+            window_remove_close: false,
+            max_depth: 0,
+            max_states: 0,
+            fairness: false,
+            fair_bound: 0,
+            block_on_no_clients: true,
+            coop_yield: false,
+            reinsert: false,
+        };
+        let all: Vec<Ev> = (0..k).map(|i| Ev::Insert(i as u8)).collect();
+        let mut picks: Vec<usize> = vec![0, 1, k / 2, 30, 31, 32, 33, 63, 64, 65, k - 2, k - 1].into_iter().filter(|&j| j < k).collect();
+        picks.sort();
+        picks.dedup();
+        let mut menu: Vec<Vec<Ev>> = Vec::new();
+        for &j in &picks {
+            let j8 = j as u8;
+            // a parked receiver, then one stream gets an item
+            menu.push(all.iter().copied().chain([Ev::Poll, Ev::Arrive(j8)]).collect());
+            // the item is there before the receiver first polls
+            menu.push(all.iter().copied().chain([Ev::Arrive(j8)]).collect());
+            // a parked receiver, one stream gets an item, is served, gets another
+            menu.push(all.iter().copied().chain([Ev::Poll, Ev::Arrive(j8), Ev::Fire(j8), Ev::Poll, Ev::Poll, Ev::Arrive(j8)]).collect());
+            // a parked receiver, then one stream ends
+            menu.push(all.iter().copied().chain([Ev::Poll, Ev::Close(j8)]).collect());
+            // a stream is removed while the receiver is parked, then another gets an item
+            menu.push(all.iter().copied().chain([Ev::Poll, Ev::Remove(j8), Ev::Arrive(((j + 1) % k) as u8)]).collect());
+            // the streams join while the receiver is already parked on the ones before them
+            menu.push((0..j).map(|i| Ev::Insert(i as u8)).chain([Ev::Poll]).chain((j..k).map(|i| Ev::Insert(i as u8))).chain([Ev::Poll, Ev::Arrive(j8), Ev::Arrive((k - 1) as u8)]).collect());
+        }
+        // everybody gets an item, parked receiver or not; then everybody gets a second one
+        menu.push(all.iter().copied().chain([Ev::Poll]).chain((0..k).map(|i| Ev::Arrive(i as u8))).collect());
+        menu.push(all.iter().copied().chain((0..k).map(|i| Ev::Arrive(i as u8))).collect());
+        menu.push(all.iter().copied().chain([Ev::Poll]).chain((0..k).rev().map(|i| Ev::Arrive(i as u8))).chain((0..k).map(|i| Ev::Fire(i as u8))).chain([Ev::Poll]).chain((0..k).map(|i| Ev::Arrive(i as u8))).collect());
+        for h in menu {
+            hists += 1;
+            events += h.len() as u64;
+            let mut sim = Sim::new(&cfg);
+            let mut bad: Option<(String, String)> = None;
+            for e in &h {
+                sim.apply(*e);
+                if let Some(v) = sim.model().violations.first() {
+                    bad = Some(v.clone());
+                    break;
+                }
+            }
+            let bad = bad.or_else(|| sim.fair_drain());
+            if let Some((class, msg)) = bad {
+                if relevant(&class) {
+                    ck.finding(
+                        format!("scale/{}", class),
+                        format!("fair queue with {} streams: {} — history: insert all {}; {}", k, msg, k, h.iter().filter(|e| !matches!(e, Ev::Insert(_))).map(|e| e.show()).collect::<Vec<_>>().join(" ; ")),
+                        json!({"engine":"E2","config": cfg_json(&cfg), "history": hist_json(&h)}),
+                    );
+                } else {
+                    ck.cov_add("e2_sibling_property_violations_seen", 1);
+                }
+            }
+        }
+    }
+    ck.cov("e2_scale_family", json!({"stream_counts": ks, "histories": hists, "events_applied": events,
+        "what": "fixed menu per stream count (one/all streams get an item or end or are removed, before or after the receiver parks; late joiners); the per-state invariants and the fair-drain oracle on each; detection beyond the exhaustive 2-3 stream configurations, not coverage"}));
 }
 
 pub fn is_c06_class(c: &str) -> bool {
